@@ -64,7 +64,11 @@ func init() {
 			seed := fw.CaseSeed("C02-session", c.Seed, c.Idx)
 			bigSync := c.Idx%6 == 5 // values of 4.3..6 MiB: one synchronous append = several write(2) calls
 			c.HashAdd("sync", seed, bigSync)
-			sum := e2RunSession(c, e2Config{mode: "sync", seed: seed, nkeys: 8, bigSync: bigSync})
+			directSync := c.Idx%6 == 2 // the second session asks for the direct-I/O WAL without the async option
+			if directSync {
+				c.Obs("sessions_asking_for_a_direct_io_wal_in_sync_mode", 1)
+			}
+			sum := e2RunSession(c, e2Config{mode: "sync", seed: seed, nkeys: 8, bigSync: bigSync, directSync: directSync})
 			if bigSync {
 				c.Obs("sessions_with_values_larger_than_the_wal_buffer", 1)
 				c.Obs("images_with_cut_wal_record", int64(sum.cutWal))
